@@ -86,6 +86,9 @@ func runC05(c *Ctx, phase string) {
 		"only spellings inside the alphabet are generated (no suffixes on exception ids or deprecated-only ids, no operators abutting ids)")
 	c.Floor("ref_accept", 100)
 	c.Floor("ref_reject", 1000)
+	if len(u.UnlistedStems) > 0 {
+		c.Floor("hostile_unknown_id_sequences", int64(len(u.UnlistedStems)))
+	}
 	for k := 0; k < gen.NumKinds; k++ {
 		switch k {
 		case gen.KUnk, gen.KSPlus, gen.KLowOp:
@@ -126,7 +129,29 @@ func runC05(c *Ctx, phase string) {
 			}
 		}
 	}
-	c.Count("exhaustive_sequences", 0)
+	// hostile unknown ids: stems U that are on no list although U-or-later / U-only is. They are unknown ids
+	// (kind UNK) like any other and must be rejected wherever they stand.
+	for i, st := range u.UnlistedStems {
+		if !c.Mine(i) {
+			continue
+		}
+		r := gen.NewRand(c.Seed, 0xC057, uint64(i))
+		for _, v := range []string{st, strings.ToLower(st), strings.ToUpper(st)} {
+			for _, seq := range [][]int{{gen.KUnk}, {gen.KUnk, gen.KPlus}, {gen.KUnk, gen.KWith, gen.KExc}, {gen.KUnk, gen.KPlus, gen.KWith, gen.KExc},
+				{gen.KAct, gen.KAnd, gen.KUnk, gen.KPlus}, {gen.KLP, gen.KUnk, gen.KPlus, gen.KRP}, {gen.KUnk, gen.KPlus, gen.KOr, gen.KAct}, {gen.KAct, gen.KWith, gen.KUnk}} {
+				lex := make([]string, len(seq))
+				for j, k := range seq {
+					if k == gen.KUnk {
+						lex[j] = v
+					} else {
+						lex[j] = u.Lexeme(k, r)
+					}
+				}
+				judgeSeq(c, seq, lex, false, gen.RenderTokens(seq, lex, false, nil))
+				c.Inc("hostile_unknown_id_sequences")
+			}
+		}
+	}
 	// long near-valid sequences
 	for i := 0; i < nLong; i++ {
 		if !c.Mine(i) {
